@@ -616,31 +616,72 @@ def r132(ctx, rep, f, ev, cg, reach, O):
         rep.missing("R13.2", pf)
     else:
         facts = ctx.facts()
-        # E72/E73 under Err(check_frame_lanes_valid); E74/E75 under !lane_error_msgs.is_empty(); E701 via report_empty…
-        sel = []
-        for x, n in tb.walk():
-            if n["k"] == "If":
-                t_ = tb.e(n["then"])[1]
-                e_ = tb.e(n["else"])[1] if n.get("else") is not None else None
-                ts = _single_str(tb, n["then"])
-                es = _single_str(tb, n["else"]) if n.get("else") is not None else None
-                if ts and es and re.fullmatch(r"E\d+", ts) and re.fullmatch(r"E\d+", es):
-                    cv = ev.tb(pf)
-                    cn = tb.e(n["cond"])[1]
-                    sel.append((ts, es, cn.get("name") if cn["k"] == "Var" else cn["k"], x))
-        exp_sel = [(O["codes"]["lane_set_ib"], O["codes"]["lane_set_ob"], "is_ib"), (O["codes"]["lane_errors_ib"], O["codes"]["lane_errors_ob"], "is_ib")]
-        rep.check([s[:3] for s in sel] == exp_sel, "R13.2", "R13.2|codes|selection", "code = is_ib ? E72 : E73 (lane set), is_ib ? E74 : E75 (lane errors)", WR,
-                  "code selections %s, expected %s" % ([s[:3] for s in sel], exp_sel))
-        ifs_ = [o for o in ev.collect_ifs(pf, [Sym("self"), Sym("ch"), Sym("sw"), Sym("rdh")]) if "cond" in o]
-        isib = [o for o in ifs_ if ckey(o["cond"]).startswith("Eq(") and ckey(o["cond"]).endswith(",Layer::Inner())")]
-        rep.check(len(isib) == 2 and all(".from_layer" in ckey(o["cond"]) for o in isib), "R13.2", "R13.2|codes|is_ib", "is_ib = frame.from_layer() == Layer::Inner", WR)
-        # the two selections sit under the right guards
-        okg = False
-        if len(sel) == 2:
-            il = [x for x, n in tb.walk() if n["k"] == "If" and tb.e(n["cond"])[1]["k"] == "Let" and _calls(tb, tb.e(n["cond"])[1]["e"], "check_frame_lanes_valid")]
-            ne = [x for x, n in tb.walk() if n["k"] == "If" and _calls(tb, n["cond"], "is_empty") and tb.e(n["cond"])[1]["k"] != "Let" and _has_not(tb, n["cond"])]
-            okg = len(il) == 1 and len(ne) == 1 and _inside(tb, il[0], sel[0][3]) and _inside(tb, ne[0], sel[1][3]) and not _inside(tb, il[0], sel[1][3])
-        rep.check(okg, "R13.2", "R13.2|codes|guards", "E72/E73 iff check_frame_lanes_valid returned Err; E74/E75 iff a lane reported errors", WR)
+        # decided per case (frame empty?, barrel, lane set valid?, any lane error?): which messages and statistics are sent
+        OPT, RES = "core::option::Option", "core::result::Result"
+        table = {}
+        for empty in (True, False):
+            for layer in ("Inner", "Middle", "Outer"):
+                for valid in (True, False):
+                    for noerrs in (True, False):
+                        ev.call_hooks = [
+                            (lambda fn, r: (r or fn).endswith("AlpideReadoutFrame::is_empty"), lambda n, a, empty=empty: Cond("true" if empty else "false")),
+                            (lambda fn, r: (r or fn).endswith("AlpideReadoutFrame::from_layer"), lambda n, a, layer=layer: Agg(LAYER, layer, {})),
+                            (lambda fn, r: (r or fn).endswith("::check_alpide_data_frame"), lambda n, a: (Sym("IDS"), Sym("LEM"), Sym("STATS"), Agg(OPT, "None", {}))),
+                            (lambda fn, r: (r or fn).endswith("::check_frame_lanes_valid"), lambda n, a, valid=valid: Agg(RES, "Ok", {"0": ()}) if valid else Agg(RES, "Err", {"0": Sym("WHY")})),
+                            (lambda fn, r: (r or fn).endswith("::is_empty"), lambda n, a, noerrs=noerrs: (Cond("true" if noerrs else "false") if vkey(a[0]) == "sym(LEM)" else None))]
+                        ev.watch = lambda c: c.endswith("::send")
+                        try:
+                            out = ev.collect_ifs(pf, [Sym("self"), Sym("ch"), Sym("sw"), Sym("rdh")], follow=lambda c: c.startswith(RFV))
+                            evs = []
+                            for o in out:
+                                if "call" not in o or any(g in ("false", "not true") for g in o["guard"]):
+                                    continue
+                                k_ = o["args"][1]
+                                und = [g for g in o["guard"] if g not in ("true", "not false")]
+                                if k_.startswith("StatType::Error("):
+                                    m_ = re.fullmatch(r"upper_hex:sym\(.*self\.alpide_readout_frame.*\.frame_start_mem_pos\)", _first_fmt_arg(k_) or "")
+                                    codes_ = tuple(sorted(set(re.findall(r"str:(E\d+)", k_))))
+                                    evs.append(("Error", codes_, "frame-start" if m_ else "other offset", tuple(und)))
+                                else:
+                                    evs.append((k_[:60], (), "", tuple(und)))
+                            table[(empty, layer, valid, noerrs)] = sorted(evs)
+                        except Unsupported as e:
+                            table[(empty, layer, valid, noerrs)] = [("unevaluable: %s" % e, (), "", ())]
+                        finally:
+                            ev.call_hooks = []
+                            ev.watch = None
+        cd = O["codes"]
+        bad_sel, bad_g, bad_ib, bad_off, bad_stats, bad_empty = [], [], [], [], [], []
+        for (empty, layer, valid, noerrs), evs in sorted(table.items()):
+            case = "empty=%s barrel=%s lanes-valid=%s lane-errors=%s" % (empty, layer, valid, not noerrs)
+            errs = [e for e in evs if e[0] == "Error"]
+            stats = [e for e in evs if e[0].startswith("StatType::AlpideStats(0=sym(STATS))")]
+            other = [e for e in evs if e not in errs and e not in stats]
+            if any(e[3] for e in evs) or other:
+                bad_g.append((case, evs))
+                continue
+            if any(e[2] != "frame-start" for e in errs):
+                bad_off.append((case, errs))
+            if empty:
+                if len(errs) != 1 or errs[0][1] or stats:
+                    bad_empty.append((case, evs))
+                continue
+            if len(stats) != 1:
+                bad_stats.append((case, len(stats)))
+            ib = layer == "Inner"
+            want = sorted(([(cd["lane_set_ib"] if ib else cd["lane_set_ob"],)] if not valid else []) + ([(cd["lane_errors_ib"] if ib else cd["lane_errors_ob"],)] if not noerrs else []))
+            got = sorted(e[1] for e in errs)
+            if got != want:
+                if len(got) != len(want):
+                    bad_g.append((case, got, want))
+                else:
+                    bad_sel.append((case, got, want))
+        rep.check(not bad_sel, "R13.2", "R13.2|codes|selection", "code = E72 / E74 for an inner-barrel frame (from_layer() == Inner), E73 / E75 for a middle- or outer-barrel frame", WR, "codes sent deviate (case, sent, expected): %s" % bad_sel[:4])
+        rep.check(not bad_g, "R13.2", "R13.2|codes|guards", "E72/E73 iff check_frame_lanes_valid returned Err; E74/E75 iff a lane reported errors", WR, "messages sent deviate (case, sent, expected): %s" % bad_g[:4])
+        rep.check(not bad_off, "R13.2", "R13.2|offset|messages", "E72–E75 and E701 messages start with the frame's start offset (upper hex)", WR, "message not headed by the frame start: %s" % bad_off[:4])
+        rep.check(not bad_stats, "R13.2", "R13.2|stats|once", "the frame's ALPIDE statistics are sent exactly once per processed frame", WR, "AlpideStats sends per case: %s" % bad_stats[:4])
+        rep.check(not bad_empty, "R13.2", "R13.2|empty|only-report", "an empty frame produces its report and nothing else", WR, "empty frame: %s" % bad_empty[:4])
+        rep.floor("R13.2", len(table), 24)
         # empty frame
         emp = [x for x, n in tb.walk() if n["k"] == "If" and _calls(tb, n["cond"], "AlpideReadoutFrame::is_empty")]
         oke = False
@@ -651,17 +692,7 @@ def r132(ctx, rep, f, ev, cg, reach, O):
         re_ = RFV + "report_empty_alpide_frame_error"
         ec = codes_under(facts, ev.tb(re_), ev.tb(re_).root) if ev.tb(re_) is not None else set()
         rep.check(oke and ec == {O["codes"]["empty_frame"]}, "R13.2", "R13.2|codes|empty", "an empty frame is reported with [E701] and not processed further", WR, "empty-frame branch ok=%s codes=%s" % (oke, sorted(ec)))
-        # messages start with the frame start offset
-        b = cg.body(pf)
         from ..emit import format_sites
-        starts = []
-        for fs in format_sites(facts, b):
-            t_ = fs["template"] or ""
-            if "[{err_code}]" in t_ or "[E7" in t_:
-                first = fs["args"][0][1] if fs["args"] else None
-                starts.append((t_[:24], show_origin(first)[:120] if first is not None else None))
-        ok = len(starts) == 2 and all(s[0].startswith("{mem_pos_start:#X}: [") and "start_mem_pos" in (s[1] or "") for s in starts)
-        rep.check(ok, "R13.2", "R13.2|offset|messages", "E72–E75 messages start with the frame's start offset (upper hex)", WR, "message heads: %s" % starts)
         if ev.tb(re_) is not None:
             rb = cg.body(re_)
             st2 = []
@@ -670,10 +701,6 @@ def r132(ctx, rep, f, ev, cg, reach, O):
                 if "[E701]" in t_:
                     st2.append((t_.strip()[:30], show_origin(fs["args"][0][1])[:160] if fs["args"] else None))
             rep.check(len(st2) == 1 and st2[0][0].startswith("{mem_pos_start:#X}: [E701]") and "start_mem_pos" in (st2[0][1] or ""), "R13.2", "R13.2|offset|empty-message", "E701 message starts with the frame's start offset", WR, "E701 head: %s" % st2)
-        # alpide stats are forwarded once per processed frame
-        sends = [(bb, t) for bb, t, cal, c in b.calls() if cal and cal.endswith("Sender::<T>::send")]
-        stat = [s for s in sends if re.search(r"StatType\{alpide::check_alpide_data_frame\(.*\)\.2\}$", show_origin(b.origin(s[1]["args"][1])))]
-        rep.check(len(stat) == 1, "R13.2", "R13.2|stats|once", "the frame's ALPIDE statistics are sent exactly once per processed frame", WR, "AlpideStats send sites: %d" % len(stat))
 
     # per-lane bunch counters
     cb_ = LA + "check_bunch_counters"
@@ -802,6 +829,26 @@ def _bind_params(ev, tb, args):
     for p_, a in zip(tb.params, args):
         ev.bind(p_.get("pat"), a, env)
     return env
+
+
+def _first_fmt_arg(key):
+    """'<kind>:<value>' of the first argument of the outermost format! inside a message value, or None"""
+    head = "Arguments::<'a>::new(sym(lit),('array',sym(call:core::fmt::rt::Argument::<'_>::new_"
+    i = key.find(head)
+    if i < 0:
+        return None
+    j = key.find("(", i + len(head))
+    kind = key[i + len(head):j]
+    depth, k = 0, j
+    while k < len(key):
+        if key[k] == "(":
+            depth += 1
+        elif key[k] == ")":
+            depth -= 1
+            if depth == 0:
+                return "%s:%s" % (kind, key[j + 1:k])
+        k += 1
+    return None
 
 
 def _single_str(tb, i):
